@@ -37,7 +37,7 @@ func Exec(w []string) (ans string, mine bool) {
 		return "", false
 	}
 	switch w[0] {
-	case "frame", "rows", "hdr", "body", "falloc":
+	case "frame", "rows", "hdr", "body", "falloc", "newrow":
 	case "deep":
 		if len(w) != 3 {
 			return "bad-op", true
@@ -127,6 +127,28 @@ func Exec(w []string) (ans string, mine bool) {
 				ans = fmt.Sprintf("err:rows:%d", rows)
 			default:
 				ans = fmt.Sprintf("ok:rows:%d", rows)
+			}
+		})
+		if crash != "" {
+			return crash, true
+		}
+		return ans, true
+	case "newrow":
+		if len(w) != 4 {
+			return "bad-op", true
+		}
+		proto, flags, body := atoi(w[1]), atoi(w[2]), hx(w[3])
+		crash := c05util.Guard(func() {
+			kind, n, err := gocql.VerifC05RowData(byte(proto), byte(flags), body)
+			switch {
+			case kind == "" && err != nil:
+				ans = "err"
+			case kind != "rows":
+				ans = "ok:" + kindName(kind)
+			case err != nil:
+				ans = "err:newrow"
+			default:
+				ans = fmt.Sprintf("ok:newrow:%d", n)
 			}
 		})
 		if crash != "" {
@@ -287,6 +309,7 @@ type gen struct {
 	r       *vh.Rng
 	emit    emitFn
 	skipped int
+	nrows   int
 }
 
 func outcomeClass(a string) string {
@@ -317,6 +340,13 @@ func (g *gen) rows(proto, flags int, body []byte, why string) {
 	line := fmt.Sprintf("rows %d %d %s", proto, flags, vh.Hex(body))
 	a, _ := Exec(strings.Fields(line))
 	g.emit(line, a, "rows/"+why+"/"+outcomeClass(a), len(body) > 0)
+	g.nrows++
+	if why == "wf" || why == "mapkey" || strings.HasPrefix(why, "field-type") || strings.HasPrefix(why, "field-tuple") || g.nrows%4 == 0 {
+		// MapScan / SliceMap destinations (Iter.RowData -> goType) for the same metadata
+		line = fmt.Sprintf("newrow %d %d %s", proto, flags, vh.Hex(body))
+		a, _ = Exec(strings.Fields(line))
+		g.emit(line, a, "newrow/"+why+"/"+outcomeClass(a), len(body) > 0)
+	}
 }
 
 var fieldValues = func(orig uint32, w int) []uint32 {
@@ -567,6 +597,41 @@ func (g *gen) fixed() {
 				x.byte1(7)
 			})
 			g.rows(proto, 0, b, "tuplefield")
+		}
+		// map columns with every key type: reflect.MapOf panics on keys that are not comparable in Go
+		keyTypes := [][]int{{3}, {9}, {0x0D}, {0x0C}, {0x20, 9}, {0x22, 9}, {0x21, 9, 9}, {0x31, 0}, {0x31, 1, 9}, {0x30}, {0x0E}, {0x10}, {0x15}, {0x77}, {0x21, 3, 9}}
+		for _, kt := range keyTypes {
+			for _, wrap := range []int{0, 0x20, 0x21} {
+				b := w(func(x *fb) {
+					x.int4(2, "")
+					x.int4(1, "")
+					x.int4(1, "")
+					x.str("ks")
+					x.str("t")
+					x.str("c")
+					if wrap == 0x20 {
+						x.short(0x20, "")
+					}
+					if wrap == 0x21 {
+						x.short(0x21, "")
+						x.short(9, "")
+					}
+					x.short(0x21, "")
+					for i, v := range kt {
+						if kt[0] == 0x30 && i == 0 {
+							x.short(0x30, "")
+							x.str("ks")
+							x.str("u")
+							x.short(0, "")
+							continue
+						}
+						x.short(v, "")
+					}
+					x.short(9, "")
+					x.int4(0, "")
+				})
+				g.rows(proto, 0, b, "mapkey")
+			}
 		}
 		// 0 columns, many rows: Scan spins without reading
 		for _, n := range []int32{5, 19999, 20000, 20001, 2147483647} {
